@@ -358,6 +358,12 @@ fn long_inputs() -> Vec<(String, Vec<u8>)> {
     v.push(("queries-500".into(), rep("B:C?;", 500).into_iter().chain(b"\n".iter().copied()).collect()));
     v.push(("long-answer".into(), b"B:C?\n".to_vec()));
     v.push(("err-queries".into(), rep("ZZ\nSYST:ERR?\n", 50)));
+    v.push(("faults-600".into(), rep("ZZ\n", 600)));
+    v.push(("faults-70000".into(), rep("Z\n", 70000)));
+    v.push(("exec-faults-600".into(), rep("A:B\nN 1\nFAIL\n", 200)));
+    for e in ["127", "128", "-128", "-129", "255", "256", "32767", "-32768", "32768", "65535", "65536", "-65536", "2147483647", "-2147483648", "2147483648", "4294967296", "9223372036854775807", "-9223372036854775808", "18446744073709551616"] {
+        v.push((format!("exponent-{}", e), format!("N 1E{},1e{}\nA:B 1E{}\nN? 1E{},2\nA:B:C? 1.5E{}\n", e, e, e, e, e).into_bytes()));
+    }
     v.push(("nonascii".into(), (0x80u8..=0xff).chain(std::iter::once(b'\n')).collect()));
     v.push(("all-bytes".into(), (0u8..=255).chain(std::iter::once(b'\n')).collect()));
     v
